@@ -883,6 +883,10 @@ func sectionOf(kind string, id int, g *gen, chunks []string) verifh.Section {
 	for _, c := range chunks {
 		h = h*31 + len(c)
 	}
+	// round 5e: after this source (valid or not) a fixed valid program must format as always (state between calls)
+	if h%3 == 0 || kind == "edge" {
+		s.Ops = append(s.Ops, "seq")
+	}
 	if h%5 == 0 {
 		s.Ops = append(s.Ops, "again")
 	}
@@ -1071,7 +1075,11 @@ func (g *gen) dropProgram() []string {
 
 // edgeSources: sources without a statement (round 5: the empty / blank / comment-only arguments of format.Source)
 var c20EdgeSources = []string{"\n", " ", "\t", "\r\n", " \n \n", "// c", "// c\n", "/* c */", "/* c */\n", "// a\n// b\n", "/* a */ /* b */\n",
-	"\n\n// c\n\n", ";", "()", "{}", "\ufeff", "\ufeffsyntax = \"v1\"\n", "syntax", "syntax =", "type", "import", "info", "service", "@server", "@server()", "@doc", "@handler"}
+	"\n\n// c\n\n", ";", "()", "{}", "\ufeff", "\ufeffsyntax = \"v1\"\n", "syntax", "syntax =", "type", "import", "info", "service", "@server", "@server()", "@doc", "@handler",
+	// round 5e: the error is raised where a particular token class is expected (the parser's variadic expect helpers
+	// receive the table of that class): http method of a route missing / misspelled / at the end of the text
+	"service s {\n@handler h\n}\n", "service s {\n@handler h\nfoo /a\n}\n", "service s {\n@handler h\n", "service s {\n@handler h", "service s {\n@handler h\n/a\n}\n",
+	"service s {\n@handler h\n\"get\" /a\n}\n", "service s {\n@handler h\nGET /a\n}\n", "service s {\n@doc \"d\"\n@handler h\n(Req)\n}\n"}
 
 // c20Classes: the known defect classes of the unchanged formatter (each one is a finding, see props/C20.json).
 var c20Classes = []string{"route-comment", "empty-body-comment", "inner-comment", "comment-trailing-blank", "star-slash", "ml-comment", "ctl-literal"}
